@@ -12,6 +12,7 @@ import (
 	"errors"
 	"fmt"
 	"os"
+	"slices"
 	"sort"
 	"strings"
 	"testing"
@@ -82,6 +83,7 @@ func readBack(lines []string, what string, n *sig.Node) error {
 	}
 	k := 0
 	var spelled []byte
+	var esc escState
 	for _, p := range n.Pos {
 		if p[2] < p[1] {
 			return fmt.Errorf("%s: inverted range %v", what, p)
@@ -96,7 +98,25 @@ func readBack(lines []string, what string, n *sig.Node) error {
 				return fmt.Errorf("%s: positions cover %d+ characters but the value %q has %d", what, k+1, n.Value, len(n.Value))
 			}
 			want := n.Value[k]
+			if esc.left > 0 {
+				// further characters spelled by the escape sequence read just before: positioned inside it
+				if p[0] != esc.line || col < esc.lo || col > esc.hi {
+					return fmt.Errorf("%s: character #%d of the value %q comes from the escape sequence at line %d cols %d-%d but is positioned at line %d col %d",
+						what, k+1, n.Value, esc.line, esc.lo, esc.hi, p[0], col)
+				}
+				esc.left--
+				k++
+				continue
+			}
 			ok := c == want || (c == '\n' && (want == ' ' || want == '\n')) || (c == '\r' && (want == '\n' || want == ' '))
+			if !ok && c == '\\' {
+				// an escape sequence of a double-quoted scalar: the characters it stands for are positioned on it
+				if dec, size := yamlEscape(lines[p[0]-1][col-1:]); dec != "" && strings.HasPrefix(n.Value[k:], dec) {
+					esc = escState{line: p[0], lo: col, hi: col + size - 1, left: len(dec) - 1}
+					k++
+					continue
+				}
+			}
 			if !ok {
 				return fmt.Errorf("%s: position #%d (line %d col %d) reads %q but character #%d of the value %q is %q (read so far: %q)",
 					what, k+1, p[0], col, string(c), k+1, n.Value, string(want), string(spelled))
@@ -109,6 +129,39 @@ func readBack(lines []string, what string, n *sig.Node) error {
 		return fmt.Errorf("%s: positions spell only %d of the %d characters of %q (read: %q)", what, k, need, n.Value, string(spelled))
 	}
 	return nil
+}
+
+type escState struct{ line, lo, hi, left int }
+
+// yamlEscape decodes the double-quoted-scalar escape sequence s starts with (YAML 1.2 section 5.7 plus the
+// \' and \<TAB> forms yaml.v3 accepts): the text it stands for and its length in the file; "" when it is none.
+func yamlEscape(s string) (string, int) {
+	if len(s) < 2 || s[0] != '\\' {
+		return "", 0
+	}
+	simple := map[byte]string{'0': "\x00", 'a': "\x07", 'b': "\x08", 't': "\x09", '\t': "\x09", 'n': "\x0a", 'v': "\x0b", 'f': "\x0c", 'r': "\x0d",
+		'e': "\x1b", ' ': " ", '"': "\"", '/': "/", '\\': "\\", '\'': "'", 'N': "\xc2\x85", '_': "\xc2\xa0", 'L': "\xe2\x80\xa8", 'P': "\xe2\x80\xa9"}
+	if d, ok := simple[s[1]]; ok {
+		return d, 2
+	}
+	n := map[byte]int{'x': 2, 'u': 4, 'U': 8}[s[1]]
+	if n == 0 || len(s) < 2+n {
+		return "", 0
+	}
+	v := 0
+	for _, c := range []byte(s[2 : 2+n]) {
+		switch {
+		case c >= '0' && c <= '9':
+			v = v<<4 + int(c-'0')
+		case c >= 'a' && c <= 'f':
+			v = v<<4 + int(c-'a') + 10
+		case c >= 'A' && c <= 'F':
+			v = v<<4 + int(c-'A') + 10
+		default:
+			return "", 0
+		}
+	}
+	return string(rune(v)), 2 + n
 }
 
 type stat struct {
@@ -231,9 +284,32 @@ func checkDiags(c Case, lines []string) (int, error) {
 				got = append(got, ch)
 				lastLine = max(lastLine, p.line)
 			}
+			// escape sequences of double-quoted scalars: the value characters they stand for are positioned on them
+			escaped := map[int]bool{}
+			for k := 0; k < len(flat) && k < len(node.Value); k++ {
+				p := flat[k]
+				if p.line < 1 || p.line > len(lines) || p.col < 1 || p.col > len(lines[p.line-1]) || lines[p.line-1][p.col-1] != '\\' {
+					continue
+				}
+				dec, size := yamlEscape(lines[p.line-1][p.col-1:])
+				if dec == "" || !strings.HasPrefix(node.Value[k:], dec) {
+					continue
+				}
+				inside := true
+				for j := 1; j < len(dec) && k+j < len(flat); j++ {
+					q := flat[k+j]
+					inside = inside && q.line == p.line && q.col >= p.col && q.col < p.col+size
+				}
+				if inside {
+					for j := range dec {
+						escaped[k+j] = true
+					}
+					k += len(dec) - 1
+				}
+			}
 			for i := range got {
 				w := want[i]
-				if !(got[i] == w || ((got[i] == '\n' || got[i] == '\r') && (w == ' ' || w == '\n'))) {
+				if !(got[i] == w || ((got[i] == '\n' || got[i] == '\r') && (w == ' ' || w == '\n')) || escaped[d.FirstColumn-1+i]) {
 					return n, fmt.Errorf("%s: the file characters selected are %q, the value characters are %q", what, string(got), want)
 				}
 			}
@@ -341,7 +417,6 @@ func keys(m map[int]bool) []int {
 // style tags (gen.Styler.Used) that identify the listed known classes
 var knownTags = map[string]string{
 	"blank-in-scalar":                "blank-in-scalar",
-	"dq-escape":                      "dq-escape",
 	"indent-indicator-leading-space": "indent-indicator-leading-space",
 	"shallow-cont":                   "shallow-cont",
 	"header-comment":                 "header-comment",
@@ -461,6 +536,11 @@ func drive(t *testing.T, opts func() gen.StyleOpts, knownMode bool) {
 		rec.Count("nodes_checked", int64(st.nodes))
 		rec.Count("multi_range_nodes", int64(st.multiline))
 		rec.Count("diagnostics_checked", int64(st.diags))
+		for _, tag := range []string{"dq-escape", "dq-backslash-continuation", "blank-in-scalar", "shallow-cont", "header-comment", "literal-blank", "literal-ws-line"} {
+			if slices.Contains(c.Styles, tag) {
+				rec.Count("cases_with:"+tag, 1)
+			}
+		}
 		if err != nil {
 			for _, k := range knownClassesOf(c, err) {
 				if id, ok := known[k]; ok {
